@@ -172,12 +172,14 @@ def cases(tier, seed):
             q = mkq(kind, sels, c)
             out.append((q, ("D5shared",)))
             out.append((q, ("D5rev",)))
+            out.append((q, ("D5falsy",)))
     # part C: feature atoms in every small context
     for name, f in FEATURES.items():
         for c in contexts(f):
             for kind, sels in SELECTIONS[:3]:
                 q = mkq(kind, sels, c)
                 out.append((q, ("D5",)))
+                out.append((q, ("D5falsy",)))
                 out.append((q, ("sub3", 5, 6)))
                 out.append((q, ("sub3", 0, 7)))
                 out.append((q, ("sub3", 7, 0)))
@@ -192,7 +194,7 @@ def cases(tier, seed):
         for kind, sels in [("entity", (X,)), ("setof", (X, F)), ("entity", (F,)), ("setof", (X, Y, F))]:
             if c is None and F not in sels:
                 continue
-            for dspec in (("D5",), ("sub3", 5, 6), ("sub3", 3, 3), ("sub3", 0, 7)):
+            for dspec in (("D5",), ("D5falsy",), ("sub3", 5, 6), ("sub3", 3, 3), ("sub3", 0, 7)):
                 out.append((mkq(kind, sels, c, extra=(flat,)), dspec))
     for qn in ("an", "the"):
         for inner in (("cmp", "eq", A(Y, "b"), L(1)), ("and", ("cmp", "eq", A(Y, "b"), L(1)), ("cmp", "eq", A(Y, "a"), L(1))),
@@ -203,14 +205,14 @@ def cases(tier, seed):
                       ("cmp", "eq", X, S)]:
                 for kind, sels in [("entity", (X,)), ("setof", (X, A(X, "b")))]:
                     q = ("query", kind, sels, c, (("dom", "x"), sub))
-                    for dspec in (("D5",), ("sub3", 7, 7), ("sub3", 5, 6)):
+                    for dspec in (("D5",), ("D5falsy",), ("sub3", 7, 7), ("sub3", 5, 6)):
                         out.append((q, dspec))
     return out
 
 
 def make_world(dspec):
-    if dspec[0] in ("D5", "D5shared", "D5rev"):
-        items = W.make_items(W.UNIVERSE)
+    if dspec[0] in ("D5", "D5shared", "D5rev", "D5falsy"):
+        items = W.make_items(W.UNIVERSE, falsy=dspec[0] == "D5falsy")
         if dspec[0] == "D5shared":
             shared = list(items)
             doms = {"x": shared, "y": shared, "z": shared}
